@@ -271,6 +271,10 @@ class Path:
         """obligation: pc => phi.  Records the verdict, then assumes phi."""
         self.ver.obligation_sites.add(name)
         p = z3.simplify(phi) if not z3.is_quantifier(phi) else phi
+        if name in self.ver.failed_names:
+            # already refuted / undischarged on another path: do not spend the budget again
+            self.assume(p)
+            return False
         if z3.is_true(p):
             self.ver.record(Obligation(name, kind, "proved", "trivial", path=list(self.taken), backend="simplify", where=where))
             return True
